@@ -30,6 +30,12 @@ func checkC16(p *Prog, r *Report) {
 	rText := r.Rule("text-preserved", "cleanPerl only blanks elements of the line slice; nothing truncates or filters the program text")
 	rFeed := r.Rule("source-to-filter", "what a filter reads is the file's own bytes: between opening the file and calling the filter only byte-preserving wrappers")
 	checkFilterFeed(p, r, rFeed)
+	/* The generated function starts on a line of its own: whatever precedes
+	it in the payload ends in a newline (C17's rule, under this property's
+	"defines a function" clause). */
+	if fr, fd := p.Func(sffPkg, "Converter", "fromReader"), p.Func(sffPkg, "Converter", "fromDirectory"); nil != fr && nil != fd {
+		checkNewline(p, r.Rule("parts-newline-terminated", "every converted file ends in a newline before the next part is appended: the Perl wrapper's header is not glued to the previous file's last line"), fr, fd)
+	}
 	rName := r.Rule("naming-and-buffers", "function name from the file's base name; output rendered into buffers of this call")
 
 	fp := p.Func(sffPkg, "", "FromPerl")
@@ -896,11 +902,102 @@ func boundIsCommentRun(lines, bound ssa.Value) bool {
 				return false
 			}
 			nIdx++
+		case *ssa.BinOp:
+			/* The index at which a range over the lines stopped: the
+			first line which does not start with '#'. */
+			if !isFirstNonCommentIndex(lines, x, l.From) {
+				return false
+			}
+			nIdx++
 		default:
 			return false
 		}
 	}
 	return 1 == nIdx
+}
+
+// isFirstNonCommentIndex: v is the index of a range over lines, taken where
+// the loop is left (over `from`) because lines[v] does not start with '#',
+// the loop going round only over "it does".
+func isFirstNonCommentIndex(lines ssa.Value, v *ssa.BinOp, from *ssa.BasicBlock) bool {
+	if token.ADD != v.Op || nil == from {
+		return false
+	}
+	ph, ok := v.X.(*ssa.Phi)
+	if !ok {
+		return false
+	}
+	if one, isC := constInt(v.Y); !isC || 1 != one {
+		return false
+	}
+	h := ph.Block()
+	if v.Block() != h {
+		return false
+	}
+	for k, e := range ph.Edges {
+		if h.Dominates(h.Preds[k]) {
+			if e != ssa.Value(v) {
+				return false
+			}
+		} else if c, isC := constInt(e); !isC || -1 != c {
+			return false
+		}
+	}
+	/* The test of lines[v]. */
+	var test *ssa.If
+	trueSucc := 0
+	for _, b := range v.Parent().Blocks {
+		ifi := blockIf(b)
+		if nil == ifi || !h.Dominates(b) {
+			continue
+		}
+		dc := decodeCond(ifi.Cond)
+		hc, isCall := dc.X.(*ssa.Call)
+		if !isCall || nil != dc.Y || "strings.HasPrefix" != calleeName(hc.Common()) {
+			continue
+		}
+		if pre, isC := constString(hc.Common().Args[1]); !isC || "#" != pre {
+			continue
+		}
+		ld, isLd := hc.Common().Args[0].(*ssa.UnOp)
+		if !isLd || token.MUL != ld.Op {
+			continue
+		}
+		ia, isIA := ld.X.(*ssa.IndexAddr)
+		if !isIA || ia.X != lines || ia.Index != ssa.Value(v) {
+			continue
+		}
+		test = ifi
+		trueSucc = 1
+		if dc.Eq {
+			trueSucc = 0
+		}
+	}
+	if nil == test {
+		return false
+	}
+	/* Round again only over "starts with #". */
+	for _, pred := range h.Preds {
+		if !h.Dominates(pred) {
+			continue
+		}
+		last := pred.Instrs[len(pred.Instrs)-1]
+		if pred == test.Block() {
+			if pred.Succs[trueSucc] != h || pred.Succs[1-trueSucc] == h {
+				return false
+			}
+			continue
+		}
+		if !edgeDominates(test, trueSucc, last) {
+			return false
+		}
+	}
+	/* Left, with this index, over "does not". */
+	if from == test.Block() {
+		/* The other way out of this block goes straight round. */
+		return from.Succs[trueSucc] == h && from.Succs[1-trueSucc] != h
+	}
+	return edgeDominates(test, 1-trueSucc, from.Instrs[len(from.Instrs)-1])
 }
 
 // isNotCommentPredicate: f(x) returns !strings.HasPrefix(x, "#") on every path.
